@@ -400,6 +400,9 @@ def check_call_sites(ctx: Ctx, aspects) -> None:
                     elif e.kind == "call" and e.name == "_update_times_on_markets":
                         seq.append(("clock", True))
                 names = [n for n, _ in seq if n != "order-phase"]
+                if "inconsistent" in names:
+                    ctx.unrec(h, sl.node, "per step: before-step hook for every market, order phase, after-step hook for every market, then the clock", "a step trigger is called for some markets or steps only (under a condition): whether the skipped calls would have reached no hook is not decided")
+                    continue
                 ok = names == ["_trigger_event_before_step_for_market", "_trigger_event_after_step_for_market", "clock"] and all(g_ for _, g_ in seq)
                 if ("order-phase", True) in seq:
                     ok = ok and [n for n, _ in seq] == ["_trigger_event_before_step_for_market", "order-phase", "_trigger_event_after_step_for_market", "clock"]
